@@ -16,6 +16,12 @@ package stubs
 //@ extern (*regexp.Regexp).Match
 //@   ensures result == reMatch(re, str(b))
 
+// UTF-8 is not modelled: a string of n bytes has between n/4 and n characters.
+//@ extern unicode/utf8.RuneCountInString
+//@   ensures result >= 0 && result <= len(s) && 4 * result >= len(s)
+//@ extern unicode/utf8.RuneCount
+//@   ensures result >= 0 && result <= len(p) && 4 * result >= len(p)
+
 //@ extern bytes.Equal
 //@   ensures result == (str(a) == str(b))
 
@@ -104,6 +110,11 @@ package stubs
 //@ extern io/ioutil.WriteFile
 //@   modifies fsExists[filename], fsContent[filename]
 //@   ensures result == nil ==> fsExists(filename) && fsContent(filename) == str(data)
+
+//@ extern os.Stat
+//@   ensures result1 == nil ==> fsExists(name)
+//@   ensures !fsExists(name) ==> result1 != nil && errIs(result1, io_fs.ErrNotExist)
+//@   ensures result1 != nil && errIs(result1, io_fs.ErrNotExist) ==> !fsExists(name)
 
 //@ extern os.WriteFile
 //@   modifies fsExists[name], fsContent[name]
